@@ -15,8 +15,8 @@
                      re-identified by path or (usable inodes) by inode: whatever changed size or time-stamp has no BLK
                      block left and is read again *)
 From Coq Require Import NArith ZArith List Bool Arith.
-From Snap.Array Require Import ArrayDefs SyncModel.
-From Snap.Scan Require Import ScanModel ScanInv ScanSound ScanCopy ScanExamples.
+From Snap.Array Require Import ArrayDefs SyncModel SyncProofsDefs SyncProofsStripe.
+From Snap.Scan Require Import ScanModel ScanInv ScanSound ScanCopy ScanMap ScanPar ScanC06 SyncConverge ScanExamples.
 Import ListNotations.
 
 (* 1. scan_sound: for every scan that does not hit an os_abort path, every disk, every listing, every scan order
@@ -50,6 +50,76 @@ Theorem C11_parity_invalid_meaning :
     exists pos : nat, pos < allocated_size c /\ existsb slot_has_file (slots_at c pos) = true /\ existsb slot_invalid_parity (slots_at c pos) = true.
 Proof. exact parity_invalid_spec. Qed.
 Print Assumptions C11_parity_invalid_meaning.
+
+(* 3. scan_preserves_map / scan_preserves_inv, in the vocabulary of C06 (Array/SyncProofsDefs.v, nothing redefined):
+      MapOK      per disk no two file blocks share a position, positions increase inside a file, no duplicate DELETED
+                 position, no DELETED entry under a file block;
+      ParOK      every synced stripe holds, in every level, the code of a vector fitting the recorded hashes;
+      PastOK p   the same for a quiet stripe (BLK, or CHG with a unique past hash): the soundness condition of sync's
+                 "parity_needs_to_be_updated = 0".
+      The scan keeps MapOK and ParOK (it never makes a stripe synced).  It does NOT keep PastOK in general: scan.c:286
+      copies the past hash of the DELETED block into the CHG block allocated over it whatever the two block lengths
+      (finding F-C05b seen from sync); refuted by a witness, proved at every stripe where the lengths agree. *)
+Theorem C11_scan_preserves_MapOK :
+  forall (basef : N -> N) (bs : N) (clearpast nocopy : bool) (inf : list (option info)) (usable : list bool)
+         (c : content) (listing : list (list lentry)) (o : scan_out),
+    MapOK c -> scan basef bs clearpast nocopy inf usable c listing = Some o -> MapOK (sc_content o).
+Proof. exact scan_preserves_MapOK. Qed.
+Print Assumptions C11_scan_preserves_MapOK.
+
+Theorem C11_scan_preserves_ParOK :
+  forall (hashf : bid -> N -> hval) (basef : N -> N) (bs : N) (clearpast nocopy : bool) (inf : list (option info))
+         (usable : list bool) (c : content) (par : parity) (listing : list (list lentry)) (o : scan_out),
+    MapOK c -> ParOK hashf bs c par ->
+    scan basef bs clearpast nocopy inf usable c listing = Some o -> ParOK hashf bs (sc_content o) par.
+Proof. exact scan_preserves_ParOK. Qed.
+Print Assumptions C11_scan_preserves_ParOK.
+
+(* full statement: forall pos, PastOK (sc_content o) par pos -- FALSE: *)
+Theorem C11_scan_past_refuted :
+  exists (hashf : bid -> N -> hval) (bs : N) (c : content) (par : parity) (listing : list (list lentry)) (o : scan_out),
+    MapOK c /\ ParOK hashf bs c par /\ (forall pos, PastOK hashf bs c par pos) /\ past_cleared c /\
+    sync_scan (fun x => x) bs false [true] c listing = Some o /\
+    ~ PastOK hashf bs (sc_content o) par 0.
+Proof. exact scan_past_refuted. Qed.
+Print Assumptions C11_scan_past_refuted.
+
+(* partial: with the exact extra hypothesis len_ok (each CHG block with a unique hash at the stripe has the block length
+   of the block that stood there before the scan); past_cleared (no unique hash on CHG/DELETED) is what loading with
+   clear_past_hash establishes and is needed only when the scan runs for sync *)
+Theorem C11_scan_preserves_PastOK_partial :
+  forall (hashf : bid -> N -> hval) (basef : N -> N) (bs : N) (clearpast nocopy : bool) (inf : list (option info))
+         (usable : list bool) (c : content) (par : parity) (listing : list (list lentry)) (o : scan_out),
+    MapOK c -> ParOK hashf bs c par -> (forall pos, PastOK hashf bs c par pos) ->
+    (clearpast = true -> past_cleared c) ->
+    scan basef bs clearpast nocopy inf usable c listing = Some o ->
+    forall pos, len_ok bs c (sc_content o) pos -> PastOK hashf bs (sc_content o) par pos.
+Proof. exact scan_preserves_PastOK_partial. Qed.
+Print Assumptions C11_scan_preserves_PastOK_partial.
+
+Theorem C11_past_cleared_after_load : forall c : content, past_cleared (clear_past c).
+Proof. exact past_cleared_clear_past. Qed.
+Print Assumptions C11_past_cleared_after_load.
+(* conjectured, not proved (more than the hour allotted): with CollFree hashf S (injectivity of (x,l) |-> hashf x l on the
+   finite set S of (block, length) pairs met by the iteration) sync_stripe preserves ParOK also at a stripe where PastOK
+   fails only through a cross-length past hash, because hashf new len_new = hashf old len_old forces len_new = len_old. *)
+
+(* 4. sync_converges, first half: a sync loop without faults over stripes whose blocks can be read and hash to every
+      recorded hash (stripe_good) counts no error, does not bail, leaves every visited stripe with BLK blocks only
+      (stripe_fine: a DELETED entry survives only in a stripe without file blocks -- state_write drops it), touches no
+      other stripe and no file attribute. *)
+Theorem C11_sync_loop_converges :
+  forall (hashf : bid -> N -> hval) (bs : N) (nlev : nat) (o : sopts) (fs : list (option fsdisk)) (now : N)
+         (stripes : list nat) (c : content) (par : parity) (ne ns : nat),
+    NoDup stripes -> o_force_full o = false ->
+    (forall p, In p stripes -> stripe_good hashf bs fs c p) ->
+    let r := sync_loop hashf bs nlev o now fs (fun _ => []) stripes None c par ne ns 0 in
+    ro_bailed r = false /\ ro_nerr r = ne /\ ro_nsilent r = ns /\ ro_nio r = 0 /\
+    (forall p, In p stripes -> stripe_fine (ro_content r) p) /\
+    (forall p, ~ In p stripes -> same_views c (ro_content r) p) /\
+    map disk_attrs (c_disks (ro_content r)) = map disk_attrs (c_disks c).
+Proof. exact sync_loop_converges. Qed.
+Print Assumptions C11_sync_loop_converges.
 
 (* --- non-vacuity (Scan/ScanExamples.v): two disks; one file unchanged, one rewritten, a symlink retargeted, an empty
    directory replaced by another, a copy on the other disk ----------------------------------------------------------- *)
